@@ -201,6 +201,47 @@ def tlc(spec, cfg, scratch, mode="bfs", workers=None, depth=None, num=None, seed
     return r
 
 
+# ---------------------------------------------------------------------- TLAPS
+
+def tlapm(module, scratch, subst=None, timeout=900, threads=8):
+    """Run the TLA+ proof system on spec/<module>.tla in a fresh directory (no fingerprint cache).
+    subst: {file: [(old, new), ...]} textual edits applied to the copies (negative controls).
+    Returns (ok, n_obligations, n_failed, tail): ok True = all obligations proved, False = some
+    failed, None = no verdict (tool error / timeout)."""
+    work = tempfile.mkdtemp(prefix="tlapm-", dir=scratch)
+    for f in os.listdir(SPEC):
+        if f.endswith(".tla"):
+            shutil.copy(os.path.join(SPEC, f), work)
+    for f, edits in (subst or {}).items():
+        src = open(os.path.join(work, f)).read()
+        for old, new in edits:
+            if old not in src:
+                return None, 0, 0, "substitution target not found in %s: %r" % (f, old)
+            src = src.replace(old, new)
+        open(os.path.join(work, f), "w").write(src)
+    t0 = time.time()
+    try:
+        p = subprocess.run(["tlapm", "--threads", str(threads), "--cleanfp", module + ".tla"], cwd=work,
+                           stdout=subprocess.PIPE, stderr=subprocess.STDOUT, text=True, timeout=timeout)
+        out = p.stdout
+    except subprocess.TimeoutExpired as e:
+        return None, 0, 0, "tlapm timed out after %ds" % timeout
+    except OSError as e:
+        return None, 0, 0, "tlapm could not be started: %s" % e
+    finally:
+        shutil.rmtree(os.path.join(work, ".tlacache"), ignore_errors=True)
+    dt = time.time() - t0
+    m = re.search(r"All (\d+) obligations? proved", out)
+    if m:
+        log("tlapm %s: all %s obligations proved, %.1fs" % (module, m.group(1), dt))
+        return True, int(m.group(1)), 0, out[-1500:]
+    m = re.search(r"(\d+)/(\d+) obligations? failed", out)
+    if m:
+        log("tlapm %s: %s of %s obligations failed, %.1fs" % (module, m.group(1), m.group(2), dt))
+        return False, int(m.group(2)), int(m.group(1)), out[-3000:]
+    return None, 0, 0, out[-1500:]
+
+
 # ---------------------------------------------------------------------- Go harness
 
 def _altmod(scratch):
